@@ -391,7 +391,10 @@ def bulk_api(ck: Check, dos, tier, lowered: bool):
             pre = objs[: nloose // 4]
             for o in pre[: len(pre) // 2]:
                 c3.add_object(o)
+            c3.pack_all_loose()          # packed and still loose (no clean_storage): the destination lists these keys twice
             c3.add_objects_to_pack(pre[len(pre) // 2:])
+            pre = pre + [b'destination-only loose object']
+            c3.add_object(pre[-1])
             reqk = list(t2)[: (nloose * 3) // 4] + [fake_key(i) for i in range(5)]
             reqk = reqk + reqk[:3]
             rng.shuffle(reqk)
@@ -400,6 +403,7 @@ def bulk_api(ck: Check, dos, tier, lowered: bool):
             if sorted(c3.list_all_objects()) != sorted(exp_keys):
                 ck.fail(f'import_objects over {len(reqk)} requested keys (lowered={lowered}): wrong key set afterwards',
                         {'kind': 'import', 'lowered': lowered, 'nloose': nloose}, 'bulk-import')
+            t2[hashlib.sha256(pre[-1]).hexdigest()] = pre[-1]
             for k in rng.sample(sorted(exp_keys), min(20, len(exp_keys))):
                 if c3.get_object_content(k) != t2[k]:
                     ck.fail('import_objects: wrong bytes after import', {'kind': 'import', 'lowered': lowered}, 'bulk-import-bytes')
